@@ -144,8 +144,31 @@ def judge(case, rec):
     else:
         rspecs, cspecs = _specs(part, orc, case)
         if dates[0] and dates[1]:
+            # the statement does not say which date wins, but estimate and MoE must use
+            # MATCHING proportion and standard error: find the proportion the estimates
+            # were built from and require the MoE to use its own std-err
             rec.event("both categorical-date")
             prop = err = None
+            rp, cp = (np.asarray(part.row_proportions, dtype=float),
+                      np.asarray(part.column_proportions, dtype=float))
+            nd_mask = np.array([[not (orc.is_diff(r_) or orc.is_diff(c_)) for c_ in cspecs]
+                                for r_ in rspecs], dtype=bool).reshape(counts.shape)
+            if P and frac and not math.isnan(frac):
+                from_rows = _all(counts[nd_mask], (P * frac * rp)[nd_mask])
+                from_cols = _all(counts[nd_mask], (P * frac * cp)[nd_mask])
+                rec.compared()
+                if not (from_rows or from_cols):
+                    rec.violation("population_counts follow neither the within-row-date nor "
+                                  "the within-column-date proportion", "both-dates-counts")
+                elif not (from_rows and from_cols):
+                    se = np.asarray(part.row_std_err if from_rows else part.column_std_err,
+                                    dtype=float)
+                    want = Z975 * P * frac * se
+                    if not _all(moe[nd_mask], want[nd_mask]):
+                        rec.violation(
+                            "population_counts use the within-%s-date proportion but "
+                            "population_counts_moe does not use the matching standard error"
+                            % ("row" if from_rows else "column"), "both-dates-moe-mismatch")
         elif dates[0]:
             prop, err = part.row_proportions, part.row_std_err
         elif dates[1]:
